@@ -761,6 +761,14 @@ func (db *DB) searchAll(o Object, field, operator string, value interface{}, con
 	fp := fieldPath(field)
 	searchType := search.valueTypeString()
 
+	// the type of the value is checked against the type of the field even
+	// if there is no object to compare with, as it is on an indexed field
+	if fd, ok := s.Fields[field]; ok {
+		if fieldType, ok := fd.castOk(); ok && fieldType != searchType {
+			return &Search{db: db, err: fmt.Errorf("%w, cannot cast %T(%v) to %s", ErrCasting, search.Value, search.Value, fieldType)}
+		}
+	}
+
 	for obj, err := iter.next(); err == nil && err != ErrEOI; obj, err = iter.next() {
 		var test *indexedField
 		var value interface{}
